@@ -200,6 +200,40 @@ func TestSampling(t *testing.T) {
 			}
 		}
 	}
+	// populations far beyond anything that fits in memory (RSample takes just n): k distinct positions below n, and
+	// over 64 one-item draws both halves of the range are hit (each half is missed with probability 2^-64)
+	for _, n := range []int{1 << 31, 1<<31 + 5, 1 << 36, 1 << 48, math.MaxInt64 / 2} {
+		c := SampleCase{Fn: "RSample", N: n, K: 1, Seed: seed + int64(n%1000), Samples: 64}
+		ok := vk.Direct(t, suite, "sampling", c, func(c SampleCase) (vk.Outcome, error) {
+			var out vk.Outcome
+			r := rand.New(rand.NewSource(c.Seed))
+			low, high := 0, 0
+			for i := 0; i < c.Samples; i++ {
+				got := xrand.RSample(r, c.N, 1)
+				if len(got) != 1 || got[0] < 0 || got[0] >= c.N {
+					return out, vk.Violf("sample-membership", "RSample(n=%d, k=1) = %v", c.N, got)
+				}
+				if got[0] < c.N/2 {
+					low++
+				} else {
+					high++
+				}
+				three := xrand.RSample(r, c.N, 3)
+				if len(three) != 3 || three[0] == three[1] || three[0] == three[2] || three[1] == three[2] {
+					return out, vk.Violf("sample-membership", "RSample(n=%d, k=3) = %v: want 3 distinct positions", c.N, three)
+				}
+			}
+			if low == 0 || high == 0 {
+				return out, vk.Violf("sample-uniformity", "RSample(n=%d, k=1): of %d draws %d fell into the lower half of the range and %d into the upper half", c.N, c.Samples, low, high)
+			}
+			out.NonTrivial = true
+			out.Label("huge-population")
+			return out, nil
+		})
+		if !ok {
+			return
+		}
+	}
 	// larger inputs: sizes and membership only
 	for _, n := range []int{7, 50, 1000} {
 		for _, k := range []int{0, 1, n / 2, n, n + 3} {
